@@ -59,13 +59,13 @@ impl Property for C17S {
         let mut handlers = Vec::new();
         if irqs {
             for v in [36u8, 37, 39] {
-                handlers.push(Handler { vector: v, kind: if rng.chance(1, 4) { HandlerKind::Slow(rng.range(1, 8) as u16) } else { HandlerKind::Count } });
+                handlers.push(Handler { vector: v, kind: if rng.chance(1, 4) { HandlerKind::Slow(rng.range(1, 8) as u16) } else { HandlerKind::Count }, at_zero: false });
             }
         }
         let use_traps = rng.chance(1, 5);
         if use_traps {
             for n in 1..=3u8 {
-                handlers.push(Handler { vector: 8 + n, kind: HandlerKind::Count });
+                handlers.push(Handler { vector: 8 + n, kind: HandlerKind::Count, at_zero: false });
             }
         }
         // shadow of the CPU-written configuration, for the property's own exclusion
